@@ -1,8 +1,8 @@
 #!/bin/bash
 # tools/run_all.sh [quick|thorough] [ids...] : run registered checks in sequence against /repo, print one line each
 tier=${1:-quick}; shift || true
-ids=${@:-$(/venv/bin/python -c "import json;print(' '.join(c['property_id'] for c in json.load(open('/verif/MANIFEST.json'))['checks']))")}
-cd /verif
+cd "$(dirname "$0")/.."
+ids=${@:-$(/venv/bin/python -c "import json;print(' '.join(c['property_id'] for c in json.load(open('MANIFEST.json'))['checks']))")}
 for p in $ids; do
   s=$(date +%s)
   out=$(./check $p --tier $tier 2>&1); rc=$?
